@@ -231,7 +231,7 @@ def none_returns(fn):
 
 
 def check_bound(res, facts):
-    rule = res.rule("R-BOUND", "construction fails exactly on the subgroup-size condition; reported size is the rounding of the request", 8)
+    rule = res.rule("R-BOUND", "construction fails exactly on the subgroup-size condition; reported size is the rounding of the request", 9)
     # Radix2::new: a comparison trailing_zeros(size) > TWO_ADICITY whose true arm returns None before the struct is built
     fns = dom_fns(facts, R2)
     fn = fns.get("new")
@@ -338,6 +338,57 @@ def check_bound(res, facts):
             rule.ok(key, "doubling is overflow-checked", fn.loc)
         else:
             rule.undecided(key, "doubling loop not recognised", fn.loc)
+    # minimality of the mixed-radix size: every shape q^b * 2^a with 0 <= b <= ADICITY and a <= TWO_ADICITY is a candidate
+    # (non-strict bounds), and the smallest admissible one is kept
+    key = "ark_poly|best_mixed_domain_size|minimal"
+    if bfn:
+        fn = bfn[0]
+        problems = []
+        succ = fn.succ()
+
+        def reaches_update(b0):
+            seen, st = set(), [b0]
+            while st:
+                x = st.pop()
+                if x in seen:
+                    continue
+                seen.add(x)
+                tt = fn.bbs[x]["t"]
+                if tt["k"] == "call" and tt["f"].get("name") == "min":
+                    return True
+                if tt["k"] == "switch" and x != b0:
+                    continue
+                st.extend(succ[x])
+            return False
+        for bi, b in enumerate(fn.bbs):
+            t = b["t"]
+            if t["k"] != "switch":
+                continue
+            c = E(fn, t["o"])
+            if isinstance(c, tuple) and c[0] == "bin" and c[3] == "TWO_ADICITY" and c[1] in ("Lt", "Le", "Gt", "Ge"):
+                false_t, true_t = t["tgts"][0], t["else"]
+                if c[1] == "Lt":
+                    problems.append("a candidate is accepted only if its two-adicity is strictly below TWO_ADICITY (%s): sizes with the full 2^TWO_ADICITY factor are admissible and may be the minimal ones" % show(c))
+                if c[1] == "Ge" and not reaches_update(true_t):
+                    problems.append("a candidate with two-adicity == TWO_ADICITY is rejected (%s)" % show(c))
+        starts = []
+        for bb, t in fn.calls():
+            if t["f"].get("name") == "next":
+                r = E(fn, t["args"][0])
+                if isinstance(r, tuple) and r[0] == "agg" and "Range" in str(r[1]) and len(r[2]) >= 2 and show(r[2][1]).find("SMALL_SUBGROUP_BASE_ADICITY") >= 0:
+                    starts.append((r[1], r[2][0]))
+                elif isinstance(r, tuple) and r[0] == "call" and r[1] == "new" and len(r[2]) == 2 and show(r[2][1]).find("SMALL_SUBGROUP_BASE_ADICITY") >= 0:
+                    starts.append(("RangeInclusive", r[2][0]))      # `a..=b` is RangeInclusive::new(a, b)
+        if not starts:
+            problems.append("loop over the small-subgroup exponent not found")
+        else:
+            kind, st0 = starts[0]
+            if "Inclusive" not in str(kind) and not (isinstance(kind, str) and kind == "RangeInclusive"):
+                # `0..=k` is lowered to RangeInclusive::new(0, k)
+                pass
+            if st0 != 0:
+                problems.append("the search over q^b starts at b = %s: the pure power-of-two shape (b = 0) must be a candidate under the same bounds" % show(st0))
+        (rule.bad if problems else rule.ok)(key, "; ".join(problems) if problems else "b ranges over 0..=ADICITY, a candidate is admitted iff two_adicity <= TWO_ADICITY, the minimum is kept", fn.loc)
     # Mixed radix: new and compute_size_of_domain reject when size != q^a * 2^b
     fns = dom_fns(facts, MR)
     for name in ("new", "compute_size_of_domain"):
@@ -1199,6 +1250,60 @@ def check_lagrange(res, facts):
     (rule.bad if problems else rule.ok)(key, "; ".join(problems) if problems else "Z(tau) = 0: u_i = 1 at the first i with offset*g^i == tau, zero elsewhere", f.loc)
 
 
+# ---- R-BFLYSIB ---------------------------------------------------------------------------------------------
+
+def check_bflysib(res, facts):
+    """apply_butterfly has three arms (small input; parallel inside a chunk; sequential inside a chunk).  They are the
+    same computation: (lo, hi) pairs of each chunk zipped with every `step`-th root.  Sibling agreement: in every arm the
+    root iterator is roots.step_by(step) with the function's own `roots` and `step`."""
+    rule = res.rule("R-BFLYSIB", "every arm of apply_butterfly pairs (lo, hi) with roots.step_by(step)", 6)
+    for unit in ("ws", "par"):
+        par = [f for f in facts.fns(unit=unit, crate="ark_poly") if f.kind != "Closure" and f.name == "apply_butterfly"]
+        if not par:
+            rule.bad("ark_poly|%s|apply_butterfly" % unit, "anchor missing")
+            continue
+        par = par[0]
+        n = 0
+        for bb, t in par.calls():
+            if t["f"].get("name") != "for_each":
+                continue
+            env = E(par, t["args"][1])
+            ops = env[2] if isinstance(env, tuple) and env[0] == "agg" else ()
+            for cid in closure_args(par, t):
+                clo = facts.get(cid, unit)
+                if clo is None:
+                    continue
+
+                def sub(t_):
+                    if not isinstance(t_, tuple) or not t_:
+                        return t_
+                    if t_[0] == "arg" and t_[1] == 1 and t_[2] and isinstance(t_[2][0], str) and t_[2][0].isdigit() and int(t_[2][0]) < len(ops):
+                        base = ops[int(t_[2][0])]
+                        return base if len(t_[2]) == 1 else ("proj", base, t_[2][1:])
+                    return tuple(sub(x) for x in t_)
+                for b2, t2 in clo.calls():
+                    if t2["f"].get("name") != "for_each":
+                        continue
+                    recv = sub(E(clo, t2["args"][0]))
+                    g = sub(E(clo, t2["args"][1]))
+                    key = "ark_poly|%s|apply_butterfly|%s|arm%d" % (unit, cid.rsplit("::", 1)[-1], n)
+                    n += 1
+                    ok = False
+                    why = show(recv)[:160]
+                    if isinstance(recv, tuple) and recv[0] == "call" and recv[1] == "zip" and len(recv[2]) == 2:
+                        r_it = recv[2][1]
+                        if isinstance(r_it, tuple) and r_it[0] == "call" and r_it[1] == "step_by" and r_it[2][1] == A(4):
+                            src = r_it[2][0]
+                            if isinstance(src, tuple) and src[0] == "call" and src[1] in ("iter", "par_iter", "into_par_iter", "into_iter") and src[2][0] == A(3):
+                                ok = True
+                        else:
+                            why = "roots iterator is %s" % show(r_it)[:120]
+                    if ok and g == A(1):
+                        rule.ok(key, "zip(zip(lo, hi), roots.step_by(step)).for_each(g)", clo.loc)
+                    else:
+                        rule.bad(key, "this arm does not pair the butterflies with every step-th root (%s): its siblings use roots.step_by(step), so the arms compute different transforms whenever step > 1" % why, clo.loc)
+
+
 def run(ctx, res):
     units = ["ws", "par"]
     facts = ctx.facts(units)
@@ -1214,6 +1319,7 @@ def run(ctx, res):
     check_pass(res, facts)
     check_parfft(res, facts)
     check_lagrange(res, facts)
+    check_bflysib(res, facts)
     return {
         "level": "other",
         "explanation": "Expression reconstruction over MIR (single-definition dataflow, `?`/borrow/cast transparent), control-flow reachability and symbolic evaluation of straight-line kernels, applied to the evaluation-domain code of ark-poly and FftField::get_root_of_unity: constructors derive every field from the right source, fail on the subgroup-size condition, accessors and the General wrapper forward correctly, forward/inverse transforms are wired to group_gen / group_gen_inv with coset scaling on the right arm and side, the butterfly kernels and the power-distribution loop bodies are proved as ring identities, the root-of-unity derivation performs (configured - requested) adicity many powerings, and the vanishing polynomial / element / iterator definitions match. That the butterfly schedule, bit-reversal, degree-aware duplication and mixed-radix passes compose to the DFT for every size and input length, and the Lagrange-coefficient loop, are NOT decided (index arithmetic over run-time sizes).",
